@@ -239,7 +239,7 @@ func lookupOrderRuleSSA(r *Run, rule string) {
 				default:
 					addBad("the embedded context must be consulted last: only for a non-string key, or when no scope of the chain has the key (and then that of the outermost scope reached)", p.ret.Pos())
 				}
-				if len(c.Call.Args) != 1 || p.resolve(c.Call.Args[0]) != ssa.Value(key) {
+				if len(c.Call.Args) != 1 || !isNameArg(c.Call.Args[0]) {
 					addBad("the embedded context is asked for another key", p.ret.Pos())
 				}
 			default:
